@@ -154,6 +154,7 @@ def build(case):
 
 
 def cases(tier, seed):
+    yield from row_cases()
     tags = [t[0] for t in T]
     # depth 1 and 2 over the full alphabet, both labelling variants
     for t in tags:
@@ -181,10 +182,77 @@ def cases(tier, seed):
                 yield {"tags": list(seq), "bind": list(bind), "variant": "all"}
 
 
+ROW_OPERANDS = {"inh": "", "imm": "#$12", "addr": "$1234", "dir": "<$12", "ext": ">$1234", "extind": "[$1234]"}
+
+
+def row_cases():
+    """every mnemonic x every operand form of its datasheet row (one operand each), sized through the listing"""
+    from . import c01
+    for mnem in R.ALL_MNEMONICS:
+        modes = R.MNEM[mnem]
+        if "REL8" in modes or "REL16" in modes:
+            yield {"row": mnem, "op": "L1", "form": "rel"}
+            yield {"row": mnem, "op": "L0", "form": "rel.self"}
+            continue
+        if "REGLIST" in modes:
+            yield {"row": mnem, "op": "A,X", "form": "reglist"}
+            continue
+        if "REGPAIR" in modes:
+            yield {"row": mnem, "op": "X,Y", "form": "regpair"}
+            continue
+        for sk in c01.row_forms(mnem):
+            f = sk["form"]
+            if f in ROW_OPERANDS:
+                yield {"row": mnem, "op": ROW_OPERANDS[f], "form": f}
+            elif f == "pcr":
+                for v in ("5", "300", "L1"):
+                    yield {"row": mnem, "op": R.render(sk, v), "form": "pcr." + v + (".ind" if sk["indirect"] else "")}
+            elif sk["sub"] == "off":
+                for v in ("5", "-5", "100", "-100", "1000", "L1"):
+                    if sk["reg"] in ("X", "S"):
+                        yield {"row": mnem, "op": R.render(sk, v), "form": "idx.off." + v + "." + sk["reg"] + (".ind" if sk["indirect"] else "")}
+            elif sk["reg"] == "Y":
+                yield {"row": mnem, "op": R.render(sk), "form": "idx." + sk["sub"] + (".ind" if sk["indirect"] else "")}
+
+
+def check_row(case):
+    mnem = case["row"]
+    lines = [" ORG $1000", "L0 {} {}".format(mnem, case["op"]), "L1 NOP", "L2 NOP"]
+    out = common.assemble_confirm(lines)
+    res = {"state": "row:{}:{}".format(out["kind"], mnem), "outcome": out["kind"], "nontrivial": out["kind"] == "OK"}
+    cell = "row.{}|{}".format(mnem, case["form"])
+
+    def V(symptom, expected, observed):
+        res["viol"] = [{"component": "layout", "cell": cell, "symptom": symptom, "expected": expected, "observed": observed,
+                        "input": dict(case, lines=lines)}]
+        return res
+    if out["kind"] != "OK":
+        return res          # acceptance of valid statements is C01's; internal errors are C13's
+    image, addrs, syms = out["image"], out["addrs"], out["symbols"]
+    try:
+        rec = R.decode(image, addrs[1])
+    except R.Illegal as e:
+        return V("image undecodable at this statement", "one {} instruction".format(mnem), "{} <- {}".format(e, image[:6].hex().upper()))
+    if mnem not in rec["mnems"]:
+        return V("image holds another instruction here", mnem, "/".join(rec["mnems"]))
+    ln = rec["len"]
+    if addrs[2] - addrs[1] != ln:
+        return V("listing advances by {} but statement emits {}".format(_d(addrs[2] - addrs[1]), ln), addrs[1] + ln, addrs[2])
+    if image[ln:] != b"\x12\x12":
+        return V("image has {} byte(s) beyond the last statement".format(_d(len(image) - ln - 2)), ln + 2, len(image))
+    if syms.get("L1") != 0x1000 + ln or syms.get("L2") != 0x1001 + ln or syms.get("L0") != 0x1000:
+        return V("symbol value differs from listing address", "L1=${:04X}".format(0x1000 + ln), str(syms))
+    if bytes.fromhex(out["hex"][1]) != image[:min(ln, 5)]:
+        return V("listing hex column differs from the image", image[:ln].hex().upper(), out["hex"][1])
+    res["state"] = "row:{}:{}:{}".format(mnem, rec["mode"], ln)
+    return res
+
+
 def all_programs(tier):
     """source programs of this walk, for C13's termination oracle"""
     for c in cases(tier, 0):
-        yield build(c)[0]
+        if "row" not in c:
+            yield build(c)[0]
 
 
 def evaluate(case, lines, labels, out):
@@ -307,6 +375,8 @@ def _d(x):
 
 
 def check_case(case):
+    if "row" in case:
+        return check_row(case)
     lines, labels = build(case)
     out = common.assemble_confirm(lines)
     v, st = evaluate(case, lines, labels, out)
@@ -324,7 +394,8 @@ def describe(tier):
         "alphabet": "{} statement templates, one per size-computation path (tags: {}); every statement labelled (variant 'all') or only "
                     "EQUs and referenced statements labelled (variant 'min'); label holes bound to every label in the sequence and to an "
                     "undefined name; a duplicate-definition variant per pair".format(len(T), " ".join(t[0] for t in T)),
-        "bound": "all sequences of length <= 2 over the full alphabet; length 3 over " +
+        "bound": "every mnemonic x every operand form of its row as a single statement followed by two labelled NOPs; "
+                 "all sequences of length <= 2 over the full alphabet; length 3 over " +
                  ("a {}-template core".format(len(CORE)) if tier == "quick" else "the full alphabet; length 4 over the core with 2 bindings per hole"),
         "oracle": "image cut by decoded instruction length / directive spec length: listing address advance = bytes emitted; hex column = "
                   "image slice; every emitting statement sits at (listed address - origin) in the image; len(image) = sum; labels = listing "
